@@ -33,7 +33,8 @@ Inductive cfn :=                 (* fn(client_id, examples) *)
 | CMul (k : Z)                   (* x * k *)
 | CAddId                         (* x + sum of the bytes of client_id *)
 | CDup                           (* every feature concatenated with itself: 2n rows *)
-| CTail.                         (* every feature without its first row *)
+| CTail                          (* every feature without its first row *)
+| CMark.                         (* adds a constant feature z: the column x is unchanged *)
 
 Inductive bfn :=                 (* fn(examples), row-wise *)
 | BAdd (k : Z)
@@ -48,6 +49,7 @@ Definition app_c (i : id) (f : cfn) (r : raw) : raw :=
   | CAddId => map (fun x => x + idsum i) r
   | CDup => r ++ r
   | CTail => tl r
+  | CMark => r
   end.
 
 Definition app_b (g : bfn) (r : raw) : raw :=
